@@ -1,0 +1,75 @@
+//go:build verif
+
+// Verification hooks (build tag verif) for property C04, engine / partition level: accessors that let an external
+// harness reach the three read/write mutexes of the close / drop protocol (EngineImpl.mu, DBPTInfo.mu, shard.mu), the
+// partition's operation counter (DBPTInfo.exeCount) and offloading flag, the first step of WriteToRaft
+// (checkAndGetDBPTInfo), and the C04 shard wrapper of a shard the engine owns. No behaviour of its own.
+package engine
+
+import (
+	"context"
+	"sync"
+	"sync/atomic"
+)
+
+// VerifC04EngineOf returns the implementation behind the Engine interface NewEngine hands out.
+func VerifC04EngineOf(e Engine) *EngineImpl {
+	impl, _ := e.(*EngineImpl)
+	return impl
+}
+
+// VerifC04EngineMu is EngineImpl.mu.
+func (e *EngineImpl) VerifC04EngineMu() *sync.RWMutex { return &e.mu }
+
+// VerifC04Partition returns the partition (db, pt) without taking any lock or reference (nil if absent).
+func (e *EngineImpl) VerifC04Partition(db string, pt uint32) *DBPTInfo {
+	if m, ok := e.DBPartitions[db]; ok {
+		return m[pt]
+	}
+	return nil
+}
+
+// VerifC04Mu is DBPTInfo.mu.
+func (dbPT *DBPTInfo) VerifC04Mu() *sync.RWMutex { return &dbPT.mu }
+
+// VerifC04RefCount reads DBPTInfo.exeCount.
+func (dbPT *DBPTInfo) VerifC04RefCount() int64 { return atomic.LoadInt64(&dbPT.exeCount) }
+
+// VerifC04Offloading reads DBPTInfo.offloading under the partition's read lock.
+func (dbPT *DBPTInfo) VerifC04Offloading() bool {
+	dbPT.mu.RLock()
+	defer dbPT.mu.RUnlock()
+	return dbPT.offloading
+}
+
+// VerifC04ShardNoLock returns the C04 wrapper of shard id of the partition without taking the partition lock.
+func (dbPT *DBPTInfo) VerifC04ShardNoLock(id uint64) *VerifC04Shard {
+	sh, _ := dbPT.shards[id].(*shard)
+	if sh == nil {
+		return nil
+	}
+	return &VerifC04Shard{sh: sh, idx: sh.indexBuilder}
+}
+
+// VerifC04WrapShard wraps a shard obtained through the engine (GetShard) for the C04 scan helpers.
+func VerifC04WrapShard(s Shard) *VerifC04Shard {
+	sh, _ := s.(*shard)
+	if sh == nil {
+		return nil
+	}
+	return &VerifC04Shard{sh: sh, idx: sh.indexBuilder}
+}
+
+// VerifC04Mu is shard.mu.
+func (v *VerifC04Shard) VerifC04Mu() *sync.RWMutex { return &v.sh.mu }
+
+// VerifC04CheckAndGetDBPTInfo is the partition lookup WriteToRaft starts with.
+func (e *EngineImpl) VerifC04CheckAndGetDBPTInfo(db string, pt uint32) error {
+	_, err := e.checkAndGetDBPTInfo(db, pt)
+	return err
+}
+
+// VerifC04DropMeasurement is shard.DropMeasurement (what DeleteMstInShard / DropMeasurement call per shard).
+func (v *VerifC04Shard) VerifC04DropMeasurement(name string) error {
+	return v.sh.DropMeasurement(context.TODO(), name)
+}
